@@ -1,5 +1,6 @@
 import Gossamer.Base.Proto
 import Gossamer.Model.C28
+import Gossamer.Lib.C28Hash
 open Gossamer Gossamer.C28
 
 /- line:   `heapBase,pages,maxPages|op;op;...`
@@ -15,7 +16,8 @@ structure Ent where
   blk : Nat
 
 structure DS where
-  r : Run
+  hb : Nat
+  r : Run hashStore
   allocs : Array Nat
   live : List Ent      -- most recent first
   outs : List String   -- reversed
@@ -42,10 +44,24 @@ def markOffs (blk : Nat) : List Nat := Id.run do
 def pat (k off : Nat) : Nat :=
   ((k + 1) * 0x9E3779B97F4A7C15 + off * 0xC2B2AE3D27D4EB4F + 0x0123456789ABCDEF) % 18446744073709551616
 
-def entOk (m : Mem) (e : Ent) : Bool :=
+def entOk (m : Mem hashStore) (e : Ent) : Bool :=
   (markOffs e.blk).all fun off => m.read64 ((e.ptr + off) % U32) == some (pat e.k off)
 
-def verdict (d : DS) : String := if d.live.all (entOk d.r.m) then "+" else "X"
+def overlapAny : List Ent → Bool
+  | [] => false
+  | e :: es => es.any (fun f => e.ptr - 8 < f.ptr + f.blk && f.ptr - 8 < e.ptr + e.blk && 8 ≤ e.ptr && 8 ≤ f.ptr
+                        || e.ptr < 8 || f.ptr < 8) || overlapAny es
+
+/-- `+` when every marker of every live allocation is intact and the live blocks are pairwise disjoint,
+    8-aligned, not below the heap base and inside the memory; else the failing checks -/
+def verdict (d : DS) : String :=
+  let x := if d.live.all (entOk d.r.m) then "" else "X"
+  let o := if overlapAny d.live then "O" else ""
+  let a := if d.live.all (fun e => e.ptr % 8 = 0) then "" else "A"
+  let b := if d.live.all (fun e => d.hb + 8 ≤ e.ptr) then "" else "B"
+  let m := if d.live.all (fun e => e.ptr + e.blk ≤ d.r.m.size) then "" else "M"
+  let s := x ++ o ++ a ++ b ++ m
+  if s = "" then "+" else s
 
 def eraseEnt (p : Nat) : List Ent → List Ent
   | [] => []
@@ -114,9 +130,14 @@ def step (line : String) : String :=
   | [hdr, ops] =>
     match (hdr.splitOn ",").map String.toNat? with
     | [some hb, some pg, some mx] =>
-      let d0 : DS := { r := Run.init (hb % U32) (pg % U32) (mx % U32), allocs := #[], live := [], outs := [] }
+      let d0 : DS := { hb := hb % U32, r := Run.init hashStore (hb % U32) (pg % U32) (mx % U32), allocs := #[], live := [], outs := [] }
       let d := (ops.splitOn ";").foldl (fun d op => if (words op).isEmpty then d else opStep d op) d0
-      ";".intercalate d.outs.reverse ++ "|" ++ showFinal d
+      let out := ";".intercalate d.outs.reverse ++ "|" ++ showFinal d
+      -- known finding: a heap base within 7 bytes of 4 GiB cannot be aligned; the Go code wraps the
+      -- aligned base to 0 and then hands out memory below the real heap base
+      if (hb % U32) + 7 ≥ U32 ∧ d.allocs.size > 0 then
+        out ++ "\tspec=no allocation may succeed: the aligned heap base does not fit 32 bits\tkf=heapbase-wrap"
+      else out
     | _ => "bad-op"
   | _ => "bad-op"
 
